@@ -57,7 +57,7 @@ def main():
         # count-table entry point on synthetic tagged BAMs
         nb = 160 if tier == 'quick' else 2500
         tmp = tempfile.mkdtemp(prefix='c10_', dir=os.getcwd())
-        def make_bam(path, b, s, reflen, bintag, contigs, n, extra=False, only=None):
+        def make_bam(path, b, s, reflen, bintag, contigs, n, extra=False, only=None, attr=False):
             # contigs of one BAM have DIFFERENT lengths (same coordinate, other bounds), the first one has `reflen`
             names = sorted(set(contigs))
             lens = {c: (reflen if k == 0 else max(4, reflen + rng.choice([-b, -1, 1, b, 2 * b, -reflen // 2]))) for k, c in enumerate(names)}
@@ -78,17 +78,26 @@ def main():
                 if rng.random() < 0.4:      # the bin-tag value is independent of where the read aligns
                     pos = rng.randint(0, max(0, reflen - 4))
                 paired = rng.random() < 0.3
-                tags = {'SM': sample, bintag: c} if rng.random() < 0.9 else {'SM': sample}
                 ft = rng.choice(['a', 'b'])
+                if attr:                    # the binned value is a read attribute (reference_start), not a SAM tag
+                    c = pos = max(0, min(c, reflen - 4))
+                    tags = {'SM': sample}
+                else:
+                    tags = {'SM': sample, bintag: c} if rng.random() < 0.9 else {'SM': sample}
                 if extra:
                     tags['ft'] = ft
+                mate_pos = rng.choice([pos, pos, max(0, pos - 1)])
                 reads.append(bamgen.make_read(header, 'r%d' % i, contig, pos, 'ACGT', paired=paired, read1=paired,
-                                              mate_contig=contig if paired else None, mate_pos=pos, tags=tags))
+                                              mate_contig=contig if paired else None, mate_pos=mate_pos, tags=tags))
+                if attr:
+                    ft, extra_lbl = str(reads[-1].next_reference_start), True
+                else:
+                    extra_lbl = extra
                 # a read without the bin tag has no coordinate; a read outside the selected contig is not iterated:
                 # both are outside the claim of C10 (C11 judges selection/filters)
-                if reads[-1].has_tag(bintag) and (only is None or contig == only):
+                if (attr or reads[-1].has_tag(bintag)) and (only is None or contig == only):
                     desc.append({'c': c, 'w': 1 if paired else 2, 'reflen': reflen,
-                                 'sample': sample + '|' + contig + ('|' + ft if extra else '')})
+                                 'sample': sample + '|' + contig + ('|' + ft if extra_lbl else '')})
             bamgen.write_bam(path, header, reads)
             return desc
 
@@ -111,19 +120,25 @@ def main():
             sliding_arg = None if (s == b and rng.random() < 0.5) else s   # default: sliding = bin
             # history / configuration shapes: one BAM; several BAMs in one call whose headers differ;
             # the same args namespace re-used for a second call on a BAM with other contig lengths
-            shape = rng.choice(['one', 'one', 'two_files', 'reuse_args', 'extra_feature', 'contig_selected'])
+            shape = rng.choice(['one', 'one', 'two_files', 'reuse_args', 'extra_feature', 'contig_selected', 'attr_bintag'])
+            # contig names of one header may differ only by a prefix ('chr1' and '1' are different contigs)
+            n0, n1, n2 = rng.choice([('chrA', 'chrB', 'chrC'), ('chr1', '1', 'chr2'), ('1', 'chr1', '11')])
             raised = ''
             path = os.path.join(tmp, 'b%d.bam' % k)
             path2 = os.path.join(tmp, 'b%d_2.bam' % k)
             extra = shape == 'extra_feature'
-            only = 'chrA' if shape == 'contig_selected' else None
-            desc = make_bam(path, b, s, reflen, bintag, ['chrA', 'chrA', 'chrB'], rng.randint(1, 12), extra=extra, only=only)
+            attr = shape == 'attr_bintag'
+            if attr:
+                bintag = 'reference_start'      # a feature name that CONTAINS the bin tag's name is also supplied
+            only = n0 if shape == 'contig_selected' else None
+            desc = make_bam(path, b, s, reflen, bintag, [n0, n0, n1], rng.randint(1, 12), extra=extra, only=only, attr=attr)
             paths = [path]
 
             def mk_args(files):
                 return SimpleNamespace(alignmentfiles=files, head=None, o=None, bin=b, binTag=bintag, sliding=sliding_arg,
                                        bedfile=None, showtags=False, featureTags=None,
-                                       joinedFeatureTags='reference_name,ft' if extra else 'reference_name',
+                                       joinedFeatureTags='reference_name,ft' if extra else (
+                                           'reference_name,next_reference_start' if attr else 'reference_name'),
                                        byValue=None, sampleTags='SM', proper_pairs_only=False, no_indels=False,
                                        max_base_edits=None, no_softclips=False, minMQ=0, filterXA=False, dedup=False,
                                        divideMultimapping=False, doNotDivideFragments=False, contig=only, blacklist=None,
@@ -131,7 +146,7 @@ def main():
                                        feature_delimiter=',', noNames=False, keepOverBounds=keep)
             if shape == 'two_files':
                 reflen2 = rng.choice([reflen + b, reflen + 1, max(4, reflen - b), reflen * 2])
-                desc = desc + make_bam(path2, b, s, reflen2, bintag, ['chrA', 'chrB', 'chrC'], rng.randint(1, 12))
+                desc = desc + make_bam(path2, b, s, reflen2, bintag, [n0, n1, n2], rng.randint(1, 12))
                 paths = [path, path2]
                 args = mk_args(paths)
                 df = run_table(args)
@@ -140,7 +155,7 @@ def main():
                 args = mk_args([path])
                 with contextlib.redirect_stdout(io.StringIO()):
                     ct.create_count_table(args, return_df=True)          # first call: result discarded
-                desc = make_bam(path2, b, s, reflen2, bintag, ['chrA', 'chrB', 'chrC'], rng.randint(1, 12))
+                desc = make_bam(path2, b, s, reflen2, bintag, [n0, n1, n2], rng.randint(1, 12))
                 paths = [path, path2]
                 args.alignmentfiles = [path2]                            # same namespace, other BAM
                 df = run_table(args)
